@@ -123,6 +123,17 @@ Theorem C18_adts_frequency_refuted :
 Proof. exact adts_frequency_refuted. Qed.
 Print Assumptions C18_adts_frequency_refuted.
 
+(* consequences: distinct canonical configurations / headers never share an encoding *)
+Theorem C18_encode_asc_injective :
+  forall a b : asc, canonical a = true -> canonical b = true -> encode_asc a = encode_asc b -> a = b.
+Proof. exact encode_asc_injective. Qed.
+Print Assumptions C18_encode_asc_injective.
+
+Theorem C18_encode_adts_injective :
+  forall a b : adts, adts_canonical a = true -> adts_canonical b = true -> encode_adts a = encode_adts b -> a = b.
+Proof. exact encode_adts_injective. Qed.
+Print Assumptions C18_encode_adts_injective.
+
 (* ------------------------------------------------------------------ AAC sample entry *)
 (* the mp4a entry CreateAudioSampleEntryBox/CreateEsdsBox build around ANY decoder configuration of
    up to 100 bytes decodes (DecodeBox -> DecodeAudioSampleEntry -> DecodeEsds -> DecodeESDescriptor ->
@@ -149,6 +160,25 @@ Print Assumptions C18_sample_entry.
 
 Example C18_sample_entry_sat : entry_freq_ok HEAACv1 24000%Z = true /\ entry_freq_ok AAClc 96000%Z = true.
 Proof. split; reflexivity. Qed.
+
+(* the same through the slice-reader decoders (DecodeBoxSR / DecodeAudioSampleEntrySR / DecodeEsdsSR),
+   the path DecodeFileSR takes *)
+Theorem C18_entry_roundtrip_sr :
+  forall (cc ss rate : N) (dc : list N),
+    cc < 65536 -> ss < 65536 -> rate < 65536 -> lenN dc <= 100 ->
+    decode_entry_sr (mp4a_box cc ss rate dc) = EOk (mkEntry 1 cc ss rate dc).
+Proof. exact entry_roundtrip_sr. Qed.
+Print Assumptions C18_entry_roundtrip_sr.
+
+Theorem C18_sample_entry_sr :
+  forall (ot : N) (f : Z),
+    entry_freq_ok ot f = true ->
+    exists bs dc,
+      set_aac_descriptor ot f = Ok bs
+      /\ decode_entry_sr bs = EOk (mkEntry 1 (a_chan (set_aac_asc ot f)) 16 (uint16_of_int f) dc)
+      /\ entry_asc_sr bs = EOk (set_aac_asc ot f).
+Proof. exact sample_entry_sr. Qed.
+Print Assumptions C18_sample_entry_sr.
 
 (* the entry's 16.16 sample-rate field: exact under the guard f < 65536 ... *)
 Theorem C18_entry_rate_exact :
